@@ -70,3 +70,17 @@ Lemma excluded_current : forall o n,
   excluded cfg_current o n =
   (o_exclude o n || str_eqb FN_SP n || match o_docsync o with DS_copy => false | _ => str_eqb FN_DOC n end).
 Proof. reflexivity. Qed.
+
+(* /repo as it is (74ea1a0): a cloned job is the source job without whatever matches a user exclude pattern *)
+Lemma clone_paths_current : forall frepr o id sd ws p,
+  o_dry_run o = false -> alookup id ws = None ->
+  forallb (fun k => negb (clone_excl o k)) p = true ->
+  lookup_path (id :: p) (Dir (fst (clone_or_sync frepr cfg_current o (id, Dir sd) ws)))
+  = match lookup_path p (Dir sd) with
+    | Some y => Some (touch (prune (clone_excl o) y))
+    | None => None
+    end.
+Proof.
+  intros frepr o id sd ws p Hdry Hn Hp.
+  apply (clone_paths frepr cfg_current o id sd ws p Hdry Hn). right. assumption.
+Qed.
